@@ -657,6 +657,8 @@ func (h *handler1) handleSubscribe(ctx context.Context, snSubscribe *snPkts1.Sub
 	// 	contains wildcard characters
 	// We will use topicID=0 in such cases. SubackMessage
 	var topicID uint16
+	// topicIDIsNew says the TopicID was registered for this very SUBSCRIBE.
+	var topicIDIsNew bool
 	// QoS 3 (-1) is defined for PUBLISH only and a zero packet identifier
 	// is not legal in MQTT: such a SUBSCRIBE cannot be passed to the MQTT
 	// broker.
@@ -671,7 +673,14 @@ func (h *handler1) handleSubscribe(ctx context.Context, snSubscribe *snPkts1.Sub
 	switch snSubscribe.TopicIDType {
 	case snPkts1.TIT_STRING:
 		topic = string(snSubscribe.TopicName)
-		if !hasWildcard(topic) {
+		if registeredID, ok := h.findRegisteredTopicID(topic); ok {
+			// The topic is already registered (REGISTER or an
+			// earlier SUBSCRIBE): the client gets the same
+			// TopicID again. With a second TopicID for the same
+			// topic name the gateway and the client could pick
+			// different ones for the following PUBLISH packets.
+			topicID = registeredID
+		} else if !hasWildcard(topic) {
 			var err error
 			topicID, err = h.newTopicID()
 			if err != nil {
@@ -688,6 +697,7 @@ func (h *handler1) handleSubscribe(ctx context.Context, snSubscribe *snPkts1.Sub
 			// the Subscription before the Server sends the SUBACK Packet.
 			// [MQTT v.5.0, chapter 3.8.4 SUBSCRIBE Actions]
 			h.registeredTopics.Store(topicID, topic)
+			topicIDIsNew = true
 		}
 		// topicID remains zero if client is subscribing to a wildcard topic.
 	case snPkts1.TIT_PREDEFINED:
@@ -703,7 +713,7 @@ func (h *handler1) handleSubscribe(ctx context.Context, snSubscribe *snPkts1.Sub
 	}
 
 	msgID := snSubscribe.MessageID()
-	transaction := newSubscribeTransaction(ctx, h, msgID, topicID)
+	transaction := newSubscribeTransaction(ctx, h, msgID, topicID, topicIDIsNew)
 	h.transactions.Store(msgID, transaction)
 
 	mqSubscribe := mqPkts.NewControlPacket(mqPkts.Subscribe).(*mqPkts.SubscribePacket)
